@@ -114,7 +114,7 @@ def expected(dv, tv, zone, dexpr, texpr, trunc):
 
 
 def generate(rng, tier):
-    per = 3 if tier == "quick" else 60
+    per = 8 if tier == "quick" else 60
     cases = []
     cfgs = [dict(ned=2, trunc=0, basic=0), dict(ned=0, trunc=0, basic=0), dict(ned=3, trunc=0, basic=0),
             dict(ned=2, trunc=1, basic=0), dict(ned=2, trunc=0, basic=1), dict(ned=2, trunc=1, basic=1)]
@@ -130,7 +130,7 @@ def generate(rng, tier):
                                 for texpr in TIME[(tfk, ttk)]:
                                     combos.append((tfk, ttk, texpr))
                     for tfk, ttk, texpr in combos:
-                        if tier == "quick" and texpr is not None and rng.random() < 0.75:
+                        if tier == "quick" and texpr is not None and rng.random() < 0.4:
                             continue
                         for _ in range(per if texpr is None else 1):
                             cases.append(make_case(rng, cfg, dfk, dtk, dexpr, tfk, ttk, texpr))
@@ -190,6 +190,8 @@ def make_case(rng, cfg, dfk, dtk, dexpr, tfk, ttk, texpr):
         ok, why = None, "basic/extended mix"
     if texpr is not None and ttk == "truncated" and not (trunc_date and (dexpr == "" or dexpr.startswith("-"))):
         ok, why = False, "truncated time with a date that is not dash-truncated"
+    if cfg["trunc"] and dexpr in ("+XCC", "+XCCYY") and dv.get("neg"):
+        ok, why = None, "a '-'-signed century/year form coincides with the truncated -YYMM / -YY text when truncation is on"
     if "+X" in (dexpr or "") and ned == 0:
         ok, why = False, "expanded form with zero expanded digits"
     lines = ["parse G %s 1 %s" % (cfgs, enc(text)), "pstr G %s %s" % (cfgs, enc(text))]
